@@ -520,7 +520,36 @@ func (in *Interp) callFunction(fn *ssa.Function, args []Value) Value {
 var ambientPkgs = map[string]bool{"os": true, "syscall": true, "os/user": true, "os/exec": true, "net": true, "io/fs": true, "os/signal": true,
 	"net/http": true, "internal/poll": true, "internal/syscall/unix": true, "path/filepath.EvalSymlinks": true}
 
+var hstubCache sync.Map // *ssa.Program -> map[string]*ssa.Function
+
+// hstub: a harness may replace a function of the package under test by defining
+// hStub_<name> with the same signature (used for the reflect-based flag parser).
+func (in *Interp) hstub(fn *ssa.Function) *ssa.Function {
+	if fn.Pkg == nil || fn.Signature.Recv() != nil || fn.Parent() != nil {
+		return nil
+	}
+	var m map[string]*ssa.Function
+	if v, ok := hstubCache.Load(in.Prog); ok {
+		m = v.(map[string]*ssa.Function)
+	} else {
+		m = map[string]*ssa.Function{}
+		for _, pkg := range in.Prog.AllPackages() {
+			for name, mem := range pkg.Members {
+				if f, ok := mem.(*ssa.Function); ok && strings.HasPrefix(name, "hStub_") {
+					m[pkg.Pkg.Path()+"."+name[6:]] = f
+				}
+			}
+		}
+		hstubCache.Store(in.Prog, m)
+	}
+	return m[fn.Pkg.Pkg.Path()+"."+fn.Name()]
+}
+
 func (in *Interp) callFunctionBody(fn *ssa.Function, args []Value) Value {
+	if h := in.hstub(fn); h != nil {
+		in.StubHits["harness stub: "+fn.Name()]++
+		fn = h
+	}
 	name := fn.String()
 	if in.AmbientOn && fn.Pkg != nil && ambientPkgs[fn.Pkg.Pkg.Path()] {
 		m := in.Ctx.Model()
